@@ -11,10 +11,10 @@ from .verify import Executor, FunctionReport
 
 
 class Lemma:
-    def __init__(self, name, vars, goal, requires=(), ih=(), hints=(), fuel=1, props=(), note="", needs=()):
+    def __init__(self, name, vars, goal, requires=(), ih=(), hints=(), fuel=1, props=(), note="", needs=(), asserts=()):
         self.name, self.vars, self.goal = name, vars, goal
         self.requires, self.ih, self.hints, self.fuel = list(requires), list(ih), list(hints), fuel
-        self.props, self.note, self.needs = list(props), note, list(needs)
+        self.props, self.note, self.needs, self.asserts = list(props), note, list(needs), list(asserts)
 
 
 class LemmaFn:
@@ -69,6 +69,10 @@ def verify_lemma(world, lm):
             path.assume(z3.Implies(z3.And([guard] + pre), goal))
         for h in lm.hints:
             ex.eval_clause(h, fr, hint=True)
+        for i, cl in enumerate(lm.asserts):  # intermediate facts: proved, then assumed
+            z = ex.eval_clause(cl, fr)
+            path.oblige(f"{ex.prefix}/assert#{i}", "lemma", z)
+            path.assume(z)
         path.oblige(f"{ex.prefix}/goal", "lemma", ex.eval_clause(lm.goal, fr))
     except VCError as e:
         rep.error, rep.error_kind = f"{type(e).__name__}: {e}", "subset"
